@@ -172,3 +172,215 @@ theorem Reach.edgesBelow {n c : Nat} {g : G L D} {r : R L D} {P : List (Nat × N
   | step op g' o _ _ hs ih => exact eb_step _ g' op o ih hs
 
 end Sodg
+
+namespace Sodg
+variable {L D : Type} [DecidableEq L] [Inhabited D]
+
+/-- labels below a vertex are distinct and no edge is a self-loop — in every slot, stale ones included -/
+def EdgesOK (g : G L D) : Prop :=
+  (∀ x, ((edg g x).map Prod.fst).Nodup) ∧ (∀ x, ∀ p ∈ edg g x, p.2 ≠ x)
+
+theorem upsert_keys (es : List (L × Nat)) (a : L) (t : Nat) :
+    ∀ b, b ∈ (upsert es a t).map Prod.fst ↔ (b ∈ es.map Prod.fst ∨ b = a) := by
+  induction es with
+  | nil => intro b; simp [upsert]
+  | cons x xs ih =>
+    intro b
+    obtain ⟨c, u⟩ := x
+    simp only [upsert]
+    split
+    next h =>
+      subst h
+      simp only [List.map_cons, List.mem_cons]
+      constructor
+      · rintro (hh | hh)
+        · exact Or.inr hh
+        · exact Or.inl (Or.inr hh)
+      · rintro ((hh | hh) | hh)
+        · exact Or.inl hh
+        · exact Or.inr hh
+        · exact Or.inl hh
+    next h =>
+      simp only [List.map_cons, List.mem_cons, ih b]
+      constructor
+      · rintro (hh | hh | hh) <;> simp [hh]
+      · rintro ((hh | hh) | hh) <;> simp [hh]
+
+theorem upsert_nodup (es : List (L × Nat)) (a : L) (t : Nat) (h : (es.map Prod.fst).Nodup) :
+    ((upsert es a t).map Prod.fst).Nodup := by
+  induction es with
+  | nil => simp [upsert]
+  | cons x xs ih =>
+    obtain ⟨c, u⟩ := x
+    simp only [List.map_cons, List.nodup_cons] at h
+    simp only [upsert]
+    split
+    · simpa [List.map_cons, List.nodup_cons] using h
+    next hne =>
+      simp only [List.map_cons, List.nodup_cons]
+      refine ⟨?_, ih h.2⟩
+      rw [upsert_keys]
+      rintro (hh | hh)
+      · exact h.1 hh
+      · exact hne hh
+
+theorem edg_eq_of_step_other (g g' : G L D) (op : Op L D) (o : Out L D) (hs : step g op = some (g', o))
+    (h1 : ∀ v, op ≠ .add v) (h2 : ∀ v1 v2 a, op ≠ .bind v1 v2 a) : ∀ u, edg g' u = edg g u := by
+  intro u
+  cases op with
+  | add v => exact absurd rfl (h1 v)
+  | bind v1 v2 a => exact absurd rfl (h2 v1 v2 a)
+  | put v d =>
+    simp only [step, Option.map_eq_some_iff] at hs
+    obtain ⟨g1, hp, he⟩ := hs
+    cases he
+    unfold put at hp
+    split at hp
+    · simp only at hp
+      split at hp
+      · split at hp
+        · cases hp; simp
+        · cases hp
+      · cases hp; simp
+    · cases hp
+  | data v =>
+    simp only [step, Option.map_eq_some_iff] at hs
+    obtain ⟨x, hd, he⟩ := hs
+    cases he
+    unfold data at hd
+    split at hd
+    · split at hd
+      · cases hd; rfl
+      · cases hd; rfl
+      · simp only at hd
+        split at hd
+        · cases hd; simp
+        · split at hd
+          · split at hd
+            · cases hd
+            · split at hd
+              · cases hd; rw [edg_collect]; simp
+              · cases hd; simp
+          · cases hd
+    · cases hd
+  | kid v a =>
+    simp only [step, Option.map_eq_some_iff] at hs
+    obtain ⟨_, _, he⟩ := hs; cases he; rfl
+  | kids v =>
+    simp only [step, Option.map_eq_some_iff] at hs
+    obtain ⟨_, _, he⟩ := hs; cases he; rfl
+  | keys => simp only [step] at hs; cases hs; rfl
+  | nextId =>
+    simp only [step, Option.map_eq_some_iff] at hs
+    obtain ⟨x, hn, he⟩ := hs
+    cases he
+    unfold nextId at hn
+    split at hn
+    · cases hn
+    · cases hn
+      split
+      · simp
+      · rfl
+
+theorem edg_joinGrp (g g' : G L D) (v b : Nat) (hj : joinGrp g v b = some g') : ∀ u, edg g' u = edg g u := by
+  intro u
+  unfold joinGrp at hj
+  split at hj
+  · cases hj; rw [edg_enroll]; simp
+  · cases hj
+
+theorem edg_bindGrp (g g' : G L D) (v1 v2 : Nat) (hb : bindGrp g v1 v2 = some g') : ∀ u, edg g' u = edg g u := by
+  intro u
+  unfold bindGrp at hb
+  split at hb
+  · split at hb
+    · split at hb
+      next b _ =>
+        cases h1 : joinGrp g v1 b with
+        | none => simp [h1] at hb
+        | some g1 =>
+          simp [h1] at hb
+          rw [edg_joinGrp g1 g' v2 b hb, edg_joinGrp g g1 v1 b h1]
+      · cases hb
+    · exact edg_joinGrp g g' v1 _ hb u
+  · split at hb
+    · exact edg_joinGrp g g' v2 _ hb u
+    · cases hb; rfl
+
+theorem Reach.edgesOK {n c : Nat} {g : G L D} {r : R L D} {P : List (Nat × Nat)} (h : Reach n c g r P) : EdgesOK g := by
+  induction h with
+  | init =>
+    have : ∀ u, edg (empty n c : G L D) u = [] := by
+      intro u; unfold edg empty; by_cases hu : u < c <;> simp [hu, blank] <;> rfl
+    exact ⟨fun x => by rw [this]; simp, fun x p hp => by rw [this] at hp; cases hp⟩
+  | @step g r P op g' o _ ok hs ih =>
+    cases op with
+    | add v =>
+      simp only [Sodg.step, Option.map_eq_some_iff] at hs
+      obtain ⟨g1, ha, he⟩ := hs
+      cases he
+      unfold add at ha
+      split at ha
+      · split at ha
+        · cases ha
+          have key : ∀ u, edg ({ g with vs := g.vs.setIfInBounds v { (blank : Vertex L D) with branch := 1 } } : G L D) u =
+              if u = v ∧ v < cap g then [] else edg g u := by
+            intro u
+            simp only [edg, cap]
+            by_cases huv : u = v
+            · subst huv
+              by_cases hlt : u < g.vs.size
+              · simp [hlt]; try grind [blank]
+              · simp [hlt]; try grind
+            · simp [huv]; try grind
+          constructor
+          · intro x; rw [key]; split
+            · simp
+            · exact ih.1 x
+          · intro x p hp; rw [key] at hp; split at hp
+            · cases hp
+            · exact ih.2 x p hp
+        · cases ha; exact ih
+      · cases ha
+    | bind v1 v2 a =>
+      simp only [Sodg.step, Option.map_eq_some_iff] at hs
+      obtain ⟨g1, hb, he⟩ := hs
+      cases he
+      unfold bind at hb
+      split at hb
+      next hc =>
+        split at hb
+        · have e := edg_bindGrp _ _ v1 v2 hb
+          have hne : v1 ≠ v2 := ok.1.ne
+          constructor
+          · intro x; rw [e, edg_setEdges]; split
+            · exact upsert_nodup _ _ _ (ih.1 v1)
+            · exact ih.1 x
+          · intro x p hp; rw [e, edg_setEdges] at hp; split at hp
+            next hx =>
+              rcases mem_upsert _ _ _ _ hp with h' | h'
+              · rw [← hx.1]; exact ih.2 v1 p h'
+              · rw [h', ← hx.1]; exact fun e => hne e.symm
+            · exact ih.2 x p hp
+        · cases hb
+      · cases hb
+    | put v d =>
+      have e := edg_eq_of_step_other _ _ _ _ hs (by intro v; simp) (by intro _ _ _; simp)
+      exact ⟨fun x => by rw [e]; exact ih.1 x, fun x p hp => by rw [e] at hp; exact ih.2 x p hp⟩
+    | data v =>
+      have e := edg_eq_of_step_other _ _ _ _ hs (by intro v; simp) (by intro _ _ _; simp)
+      exact ⟨fun x => by rw [e]; exact ih.1 x, fun x p hp => by rw [e] at hp; exact ih.2 x p hp⟩
+    | kid v a =>
+      have e := edg_eq_of_step_other _ _ _ _ hs (by intro v; simp) (by intro _ _ _; simp)
+      exact ⟨fun x => by rw [e]; exact ih.1 x, fun x p hp => by rw [e] at hp; exact ih.2 x p hp⟩
+    | kids v =>
+      have e := edg_eq_of_step_other _ _ _ _ hs (by intro v; simp) (by intro _ _ _; simp)
+      exact ⟨fun x => by rw [e]; exact ih.1 x, fun x p hp => by rw [e] at hp; exact ih.2 x p hp⟩
+    | keys =>
+      have e := edg_eq_of_step_other _ _ _ _ hs (by intro v; simp) (by intro _ _ _; simp)
+      exact ⟨fun x => by rw [e]; exact ih.1 x, fun x p hp => by rw [e] at hp; exact ih.2 x p hp⟩
+    | nextId =>
+      have e := edg_eq_of_step_other _ _ _ _ hs (by intro v; simp) (by intro _ _ _; simp)
+      exact ⟨fun x => by rw [e]; exact ih.1 x, fun x p hp => by rw [e] at hp; exact ih.2 x p hp⟩
+
+end Sodg
